@@ -188,6 +188,15 @@ func (ru *run) phaseC() {
 					return
 				}
 				r.Count("mutation_turned_out_valid:"+d.blk.mutated, 1)
+				// a damaged block that a clean node accepts is a valid block: every reference model applies to it
+				// (this is where an accepted second verdict on a judged report, an accepted duplicate ticket, ... show)
+				if d.blk.parent != nil && d.blk.parent.state != nil && d.blk.parent.mutated == "" && d.blk.state != nil {
+					checkTransition(r, ru, d.blk)
+					if r.Violated() {
+						return
+					}
+					r.Count("probe:reference_models_on_accepted_damaged_block", 1)
+				}
 			} else {
 				r.Count("fault:invalid_block:"+d.blk.mutated, 1)
 				if d.mut != nil {
